@@ -92,6 +92,44 @@ NEEDS.update({
  "r3-T6-v1": "maintenance commit (lexer/grammar tidy-up): Whitespace* accepts tab/newline after ':' and ','",
  "r3-T6-v2": "maintenance commit (URL template cached on the AST): \"\" used as sentinel - route consisting of one optional segment built without withOptional",
 })
+NEEDS.update({
+ "r5-C01-v1": "whole path unescaped before splitting: a request path that still contains %2F (client sent %252F) so that one segment becomes two",
+ "r5-C01-v2": "empty request segment rejected early by regex leaves and subtrees: a nullable user expression ([a-z]*, (en|fr)?) and a request with an empty segment in that position",
+ "r5-C02-v1": "short form of a route whose only segment is optional built from a synthetic '/' route: request for '/' and the reserved parameter route read",
+ "r5-C02-v2": "decoding skipped unless '%' is found at index > 0: request path that begins with a %-escape right after the leading slash, first segment a bind",
+ "r5-C03-v1": "ResponseWriter gains ReadFrom that bypasses its own WriteHeader: underlying writer implements io.ReaderFrom, a handler streams the body with io.Copy and another handler follows",
+ "r5-C03-v2": "cancel check moved to the bottom of the run loop: a handler cancels the context and then calls Next(), or the context is already cancelled on entry",
+ "r5-C04-v1": "implementor scan pre-filtered by NumMethod: an interface with unexported (sealed) methods requested and a value registered under an implementing type with fewer exported methods",
+ "r5-C04-v2": "request contexts recycled through a sync.Pool without clearing the injector: a handler maps a value at request scope and a later request asks for that type",
+ "r5-C05-v1": "Renderer hands every request the same *render: two requests in flight, one passes the middleware between the other's middleware and its render call",
+ "r5-C05-v2": "Recovery's source-line cache shared by all requests: concurrent panicking requests in development mode (data race)",
+ "r5-C06-v1": "raw brace count before lexing: a regex value containing an unbalanced '}' (e.g. /[}]/ or /a}/)",
+ "r5-C06-v2": "bind literal used as fmt format string in Segment.String: a parameter literal containing '%'",
+ "r5-C07-v1": "shortcut table flattened to method+path keys: unknown method that is a proper prefix of a registered one and a path starting with the remaining letters (GE + T/users)",
+ "r5-C07-v2": "capture groups counted with strings.Count('('): a bind whose expression has a non-capturing '(' ((?i), [(], escaped) followed by another bind - index out of range panic",
+ "r5-C08-v1": "stand-alone compilation skipped for the last bind of a segment: an expression invalid alone that balances once wrapped in the framework's parentheses (e.g. 'a)(b')",
+ "r5-C08-v2": "optional-not-last check only runs when a new subtree is created and subtrees are looked up ignoring '?': an ill-formed route with an optional non-final segment whose text already exists as a subtree",
+ "r5-C09-v1": "header constraint evaluated over all fields joined with ', ': request carrying the constrained header more than once",
+ "r5-C09-v2": "shortcut key remembered in Route.staticPath, not filled in by Routes(): a static route registered through Routes() and then constrained with Headers()",
+ "r5-C10-v1": "shortcut hands every request the same params map: a handler writes into Params() of a static route and a later request of the same route reads them",
+ "r5-C10-v2": "single wildcard shortcut table for Any routes consulted for every method: a static Any route requested with a method outside the nine known ones",
+ "r5-C11-v1": "group scope judged by non-empty concatenated prefix: every enclosing group has the empty path, group handlers dropped",
+ "r5-C11-v2": "Combo registers through Route(method) instead of Get: AutoHead on, Combo().Get(), HEAD request",
+ "r5-C12-v1": "URLPath emits only the first bind of a bracket: a segment bracket declaring >= 2 regex binds",
+ "r5-C12-v2": "group path parsed once, segments appended in place: sibling routes of a nested group share a backing array, URLPath of the earlier one shows the later one's tail",
+ "r5-C13-v1": "Flush returns early when the underlying writer is no Flusher: first operation is Flush on a non-flushing writer, then WriteHeader",
+ "r5-C13-v2": "Size() not advanced when the underlying Write returns an error: a partial write together with an error",
+ "r5-C14-v1": "default return handler returns early for HEAD: HEAD request and a return shape without int status, followed by another handler",
+ "r5-C14-v2": "return values discarded once the response is written: the returning handler itself flushed, sent a status line or wrote before returning",
+ "r5-C15-v1": "last panic value compared with ==: two consecutive panics with values of the same non-comparable dynamic type (slice, map, struct holding one)",
+ "r5-C15-v2": "no status written for HEAD: HEAD request whose chain panics, handlers behind the panicking one then run",
+ "r5-C16-v1": "caching headers set before the directory checks: Expires/CacheControl configured and a directory without servable index requested (response of the rest of the chain carries them)",
+ "r5-C16-v2": "relative redirect location: directory reached through trailing dot segments (/docs/., /docs/guide/..)",
+ "r5-C17-v1": "pooled JSON encoders keep their indentation: a Renderer with JSONIndent used before one without in the same process",
+ "r5-C17-v2": "status codes outside 100-599 rewritten to 500: a render call with a status of 600..999",
+ "r5-C18-v1": "Query skips parsing unless the raw query contains the name: a key that is percent-encoded or uses '+' on the wire",
+ "r5-C18-v2": "QueryStrings aliases a per-request cache: the caller changes the returned slice in place and reads the key again",
+})
 for i, (c, what) in enumerate([("16996b9", "C02"), ("b1ad9ca", "C02"), ("dc445d8", "C08"), ("50e6683", "C12"), ("8943820", "C09"), ("e71688c", "C10"), ("c547909", "C08"), ("4ac932e", "C09"), ("356c62b", "C03"), ("f4314d8", "C14"), ("9fed95b", "C11"), ("788edcd", "C10"), ("be19d8a", "C17")], 1):
     NEEDS["rev-F%02d" % i] = "reverse of fix commit %s: the defect as it was in the pinned tree (see known_findings.txt and DESIGN.md section 6)" % c
 REVPROP = {"rev-F01": "C02", "rev-F02": "C02", "rev-F03": "C08", "rev-F04": "C12", "rev-F05": "C09", "rev-F06": "C10", "rev-F07": "C08", "rev-F08": "C09", "rev-F09": "C03", "rev-F10": "C14", "rev-F11": "C11", "rev-F12": "C10", "rev-F13": "C17"}
